@@ -130,6 +130,14 @@ def main():
         if not r['obligations']:
             undecided.append('%s: void run, zero obligations' % g['name'])
             continue
+        import re as _re
+        ign = g.get('ignore', [])
+        excluded = [o for o in r['obligations'] if any(_re.search(rx, o['desc']) for rx, _why in ign)]
+        if excluded:
+            ge['excluded_tool_artifacts'] = [{'obligation': o['id'], 'description': o['desc'][:160], 'status': o['status']} for o in excluded[:8]]
+            for rx, why in ign:
+                assumptions.add('%s: obligations matching /%s/ are excluded (not counted): %s' % (g['name'], rx, why))
+        r['obligations'] = [o for o in r['obligations'] if o not in excluded]
         user_obl = [o for o in r['obligations'] if not o['fn'].startswith(pipeline.LIB_PREFIXES)]
         exp = None
         ep = expected_path(prop, g['name'])
